@@ -415,6 +415,17 @@ def notin_mask(I, IDX, n):
     return m
 
 
+def array_max_facts(I, q):
+    """instances at row q of `m >= arr[q]` for every np.max(arr) taken on this path"""
+    out = []
+    for arr, m in I.path.ghost.get("array_max", []):
+        try:
+            out.append(z3.Implies(z3.And(zint(q) >= 0, zint(q) < zint(arr.n)), to_z3(m, "real") >= to_z3(arr.at(I, q), "real")))
+        except Unsupported:
+            pass
+    return out
+
+
 def generic_index(I, n, tag="p"):
     p = I.path.fresh(f"{tag}{next(_uid)}", "int")
     I.path.assume(z3.And(p.t >= 0, p.t < zint(n)))
@@ -459,10 +470,11 @@ class LabelSet(Ext):
     """np.unique(A[A >= 0]) (optionally minus some values): membership predicate only"""
     type_name = "ndarray(unique labels)"
 
-    def __init__(self, source: SArr, excluded=(), mask=None):
+    def __init__(self, source: SArr, excluded=(), mask=None, extra=()):
         self.source = source
         self.excluded = list(excluded)
         self.mask = mask            # the boolean array used to filter the source (np.unique(src[mask]))
+        self.extra = list(extra)    # values added by np.union1d / np.append (members whatever the source holds)
         self.uid = next(_uid)
 
     def admitted(self, I, j):
@@ -475,6 +487,8 @@ class LabelSet(Ext):
         c = z3.And(w.t >= 0, w.t < zint(self.source.n), self.admitted(I, w), zint(self.source.at(I, w)) == zint(x))
         for e in self.excluded:
             c = z3.And(c, zint(x) != zint(e))
+        for e in self.extra:
+            c = z3.Or(c, zint(x) == zint(e))
         return c, w
 
     def py_len(self, I):
@@ -608,11 +622,21 @@ def install_numpy(I):
         return orig_unique.py_call(I_, a, k)
     A["unique"] = Builtin("np.unique", unique)
 
+    def union1d(I_, a, k):
+        U, xs = a[0], a[1]
+        if isinstance(U, LabelSet):
+            vals = list(xs.data) if isinstance(xs, Tensor) else (list(xs) if isinstance(xs, (list, tuple)) else [xs])
+            if not all(isinstance(v_, (int, Sym)) for v_ in vals):
+                raise Unsupported("np.union1d with non-integer values")
+            return LabelSet(U.source, U.excluded, mask=U.mask, extra=U.extra + vals)
+        raise Unsupported("np.union1d of unsupported operands")
+    A["union1d"] = Builtin("np.union1d", union1d)
+
     def setdiff1d(I_, a, k):
         U, xs = a[0], a[1]
         if isinstance(U, LabelSet):
             vals = list(xs.data) if isinstance(xs, Tensor) else list(xs)
-            return LabelSet(U.source, U.excluded + vals, mask=U.mask)
+            return LabelSet(U.source, U.excluded + vals, mask=U.mask, extra=U.extra)
         raise Unsupported("np.setdiff1d of unsupported operands")
     A["setdiff1d"] = Builtin("np.setdiff1d", setdiff1d)
 
@@ -629,7 +653,23 @@ def install_numpy(I):
     orig_asarray = A["asarray"]
     A["asarray"] = Builtin("np.asarray", lambda I_, a, k: a[0] if isinstance(a[0], (SArr, LabelSet)) else orig_asarray.py_call(I_, a, k))
     orig_max = A["max"]
-    A["max"] = Builtin("np.max", lambda I_, a, k: a[0].np_max(I_) if isinstance(a[0], LabelSet) else orig_max.py_call(I_, a, k))
+    def np_max(I_, a, k):
+        x = a[0]
+        if isinstance(x, LabelSet):
+            return x.np_max(I_)
+        if isinstance(x, SArr) and not x.row and not k:
+            # max of a non-empty 1-d array: attained at a witness row, an upper bound of every row (instances on demand:
+            # `array_max_facts`); an empty array raises ValueError
+            nz = zint(x.n)
+            if I_.path.branch(nz == 0):
+                raise PyExc("ValueError", ("zero-size array to reduction operation maximum which has no identity",))
+            m = I_.path.fresh(f"max{next(_uid)}", "int" if x.dtype == "int" else "real")
+            w = I_.path.fresh(f"argmax{next(_uid)}", "int")
+            I_.path.assume(z3.And(w.t >= 0, w.t < nz, to_z3(x.at(I_, w), "real") == to_z3(m, "real")))
+            I_.path.ghost.setdefault("array_max", []).append((x, m))
+            return m
+        return orig_max.py_call(I_, a, k)
+    A["max"] = Builtin("np.max", np_max)
 
     def choice(I_, rng, a, k):
         pool = a[0]
